@@ -167,6 +167,9 @@ func c04InputsKept(c *core.Ctx) {
 			return out
 		}
 		cleared := assigned(reset)
+		for f, pos := range wholeStructStores(reset.Pkg.TypesInfo, reset.Decl.Body, recvVar(reset)) {
+			cleared[f] = pos
+		}
 		var fs []*types.Var
 		rounded := assigned(round)
 		for f := range rounded {
